@@ -133,17 +133,20 @@ impl Grammar {
         out
     }
 
-    // Random derivation -> sequence of (terminal, role) where role says how an IDENTIFIER is used.
-    pub fn generate(&self, nt: &str, budget: u32, rnd: &mut dyn FnMut(u64) -> u64, out: &mut Vec<(String, &'static str)>) {
+    // Random derivation -> sequence of (terminal, role) where role says how an IDENTIFIER is used.  `fuel` = how many
+    // non-minimal alternatives may still be chosen along a path (the minimal ones walk straight down the ladder).
+    pub fn generate(&self, nt: &str, fuel: u32, rnd: &mut dyn FnMut(u64) -> u64, out: &mut Vec<(String, &'static str)>) {
         let alts = &self.rules[nt];
-        let ok: Vec<&Vec<String>> = alts.iter().filter(|a| self.alt_depth(a) <= budget.max(self.min_depth[nt])).collect();
-        let alt = ok[rnd(ok.len() as u64) as usize];
+        let min = self.min_depth[nt];
+        let pick: Vec<&Vec<String>> = if fuel == 0 { alts.iter().filter(|a| self.alt_depth(a) == min).collect() } else { alts.iter().collect() };
+        let alt = pick[rnd(pick.len() as u64) as usize];
+        let child_fuel = if self.alt_depth(alt) == min { fuel } else { fuel - 1 };
         for s in alt {
             if is_terminal(s) {
                 let role = if s == "IDENTIFIER" { if nt == "variable" { "use" } else { "bind" } } else { "" };
                 out.push((s.clone(), role));
             } else {
-                self.generate(s, budget.saturating_sub(1), rnd, out);
+                self.generate(s, child_fuel, rnd, out);
             }
         }
     }
